@@ -26,8 +26,8 @@ ASSUMPTIONS = [
     "double-precision interpreter in the harness; winding number by signed solid angles at random points with "
     "|f| > %g*min_feature; |f(vertex)| <= k'*min_feature with k' = %s; vertices inside the render region." % (K_WIND, K_DIST),
     "DC vertex placement (findVertex) has no model here; for DC only the oracle side exists.",
-    "searchEdge tie: the Lean model is run on the sign classifier of the reference field and compared with the vertex the real "
-    "searchEdge returns; crossings within float noise of a sample point, grazing crossings and multi-crossing segments are skipped (counted).",
+    "searchEdge tie: the Lean model is run on the sign classifier of the reference field and compared with the vertex each of the two real "
+    "copies (SimplexMesher::searchEdge, HybridMesher::searchEdge) returns; crossings within float noise of a sample point, grazing crossings and multi-crossing segments are skipped (counted).",
 ]
 
 
@@ -84,7 +84,7 @@ def gen_program(rng, tier):
             errs = ["1e-8", rng.choice(["-1", "-1", "1e-2", "1e-3"])]
             for me in errs:
                 workers = rng.choice([1, 2, 4, 8, 16])
-                vol = 1 if (alg == "dc" and rng.random() < 0.5) else 0
+                vol = 1 if rng.random() < 0.45 else 0
                 body.append("render %s %.9g %s %d %d 0" % (alg, mf, me, workers, vol))
         lines += hdr + body + ["end"]
         meta[cid] = {"header": hdr, "probes": [l for l in body if l.startswith("probe")],
@@ -93,38 +93,23 @@ def gen_program(rng, tier):
     return lines, meta
 
 
-def vol_probe(exe, meta, rep, stats):
-    """ISO_SIMPLEX / HYBRID with an acceleration VolTree, each in its own process (crash containment)."""
-    cid = sorted(meta, key=lambda c: meta[c]["levels"])[len(meta) // 2]
-    m = meta[cid]
-    out = {}
-    for alg in ("simplex", "hybrid"):
-        prog = m["header"] + m["probes"] + ["render %s %.9g 1e-8 2 1 0" % (alg, m["min_feature"]), "end"]
-        try:
-            r = subprocess.run([exe], input="\n".join(prog) + "\n", stdout=subprocess.PIPE, stderr=subprocess.PIPE,
-                               text=True, timeout=300)
-            rc = r.returncode
-        except subprocess.TimeoutExpired:
-            rc, r = "timeout", None
-        stats["vol_runs_" + alg] += 1
-        if rc != 0:
-            rep.violation("Mesh::render with alg=%s and settings.vol set crashes (rc=%s): cells the VolTree proves empty/filled "
-                          "get no leaf, assignIndices dereferences it" % (alg, rc),
-                          {"kind": "oracle", "program": prog, "rc": rc,
-                           "how": "write `program` to a file and run .build/plain/harness/mesh <file> (SIGSEGV in "
-                                  "SimplexNeighbors/HybridNeighbors during assignIndices)"},
-                          key="C04:vol-%s-null-leaf" % alg)
-        else:
-            out[alg] = list(c03.parse_renders(r.stdout))
-    return cid, out
-
-
 def run(rep, tier, seed, replay=None):
     rng = random.Random(seed * 7919 + 4)
     translate_meshtables.main()
     aud = common.audit("C04")
     exe = common.build_harness("mesh")
     prog, meta = gen_program(rng, tier)
+    # the VolTree path used to crash for simplex / hybrid (fixed by ebdd503): probe it in separate
+    # processes first, so that a regression is reported with its input instead of killing the run
+    crashing = c03.vol_crash_probe(exe)
+    for alg, (rc, cprog) in crashing.items():
+        rep.violation("Mesh::render with alg=%s and settings.vol set crashes (rc=%s): cells the VolTree proves empty/filled "
+                      "get no leaf, assignIndices dereferences it" % (alg, rc),
+                      {"kind": "oracle", "program": cprog, "rc": rc,
+                       "how": "write `program` to a file and run .build/plain/harness/mesh <file>"},
+                      key="C04:vol-%s-null-leaf" % alg)
+    if crashing:
+        prog = c03.strip_vol(prog, set(crashing))
     work = os.path.join(common.BUILD, "work")
     os.makedirs(work, exist_ok=True)
     pf = os.path.join(work, "c04-%d-%s.prog" % (seed, tier))
@@ -137,11 +122,6 @@ def run(rep, tier, seed, replay=None):
         return rep.finish("proof", common.proof_coverage(aud, {"evaluations": 0}), ASSUMPTIONS)
     stats = collections.Counter()
     renders = list(c03.parse_renders(r.stdout))
-    vol_case, vol_out = vol_probe(exe, meta, rep, stats)
-    for alg, rds in vol_out.items():
-        for rd in rds:
-            rd["hdr"][1] = vol_case
-            renders.append(rd)
 
     def replay_of(rd, extra=()):
         h = rd["hdr"]
@@ -162,7 +142,8 @@ def run(rep, tier, seed, replay=None):
         lo, hi = meta[h[1]]["region"]
         stats["renders"] += 1
         stats["renders_" + alg] += 1
-        stats["with_vol"] += int(h[6] == "1")
+        if h[6] == "1":
+            stats["with_vol_" + alg] += 1
         stats["vertices"] += max(0, len(rd["v"]) - 1)
         if not rd["b"]:
             stats["empty_meshes"] += 1
@@ -212,7 +193,7 @@ def run(rep, tier, seed, replay=None):
                           % (alg, K_DIST[alg], abs(float(far_v[0][1][3])) / mf, h[1], h[3], h[4]), rp)
 
     # ---- searchEdge: property oracle + model correspondence
-    searches = [l for l in r.stdout.splitlines() if l.startswith("search ")]
+    searches = [l for l in r.stdout.splitlines() if l.startswith("search ") or l.startswith("hsearch ")]
     if not aud["ok"]:
         common.lake_build(["vd-c04"])
     try:
@@ -230,7 +211,7 @@ def run(rep, tier, seed, replay=None):
         if not (fa < 0 < fb):
             stats["search_skipped_bad_ends"] += 1
             continue
-        stats["search_cases"] += 1
+        stats["search_cases_" + ("hybrid" if w[0] == "hsearch" else "simplex")] += 1
         tol_f = 2e-6 + 1e-5 * ln
         tol_t = 1e-6 / ln + 1e-7
         k = t * 50625 - 0.5
@@ -243,10 +224,10 @@ def run(rep, tier, seed, replay=None):
             problems.append("final bracket does not contain the sign change: f(lo)=%r f(hi)=%r" % (flo, fhi))
         if problems:
             oracle_search_bad.add(w[1] + "#" + str(n))
-            rep.violation("searchEdge result violates the bracket property: %s" % "; ".join(problems),
+            rep.violation("%s result violates the bracket property: %s" % ("HybridMesher::searchEdge" if w[0] == "hsearch" else "SimplexMesher::searchEdge", "; ".join(problems)),
                           {"kind": "oracle", "program": meta[w[1]]["header"] + meta[w[1]]["searches"] + ["end"], "observed": l,
                            "how": "write `program` to a file and run .build/plain/harness/mesh <file>",
-                           "columns": "search case t_real offset z changes f(a) f(b) len slope f(bracket lo) f(bracket hi)"})
+                           "columns": "search|hsearch case t_real offset z changes f(a) f(b) len slope f(bracket lo) f(bracket hi)"})
     mism = [v for v in verdicts if v.startswith("MISMATCH")]
     if mism and not oracle_search_bad:
         rep.violation("model/implementation correspondence broken (stream C04.search): %s" % mism[0][:300],
@@ -263,7 +244,7 @@ def run(rep, tier, seed, replay=None):
     cov = common.proof_coverage(aud, {
         "evaluations": stats["renders"] + len(searches), "distinct_nontrivial": len(nontrivial) + sstat.get("ok", 0),
         "rule": "seeded CSG solids with 1-Lipschitz fields strictly inside the region, 2-6 levels, dc/simplex/hybrid, merging on/off, "
-                "workers 1..16, DC with and without VolTree (+ one simplex and one hybrid VolTree run in separate processes); "
+                "workers 1..16, all three algorithms with and without a VolTree (after a crash probe of the VolTree path in separate processes); "
                 "non-trivial = non-empty mesh with distinct (shape, algorithm, max_err, vol) or a search case the model decided",
         "correspondence": {"search_verdicts": dict(sstat), **{k: v for k, v in sorted(stats.items())}},
         "oracle": {"k_winding": K_WIND, "k_distance": K_DIST, "winding_tolerance": WIND_TOL,
